@@ -9,7 +9,7 @@ def _pfx(a, b):
 class C14(Prop):
     ID = "C14"
     THEOREMS = ["C14_header_operation", "C14_prefix_rejected", "C14_prefix_rejected_ops", "C14_prefix_complete",
-                "C14_trace_is_file", "C14_trace_is_file_multipass", "C14_refused_input", "C14_fault",
+                "C14_prefix_serves", "C14_trace_is_file", "C14_trace_is_file_multipass", "C14_refused_input", "C14_fault", "C14_fault_state",
                 "C14_last_flush_refuted", "C14_debug_split_refuted"]
     RULE = ("bbi cases (1-6 chromosomes, layouts from the grammar, options compress x items_per_slot x block_size x zoom modes x "
             "single/two pass) plus malformed inputs (overlap, end beyond the chromosome, start > end, unknown chromosome, chromosome "
@@ -94,6 +94,20 @@ class C14(Prop):
             c.append([threads, inmem, 0])
             tags += ["threads=%d" % threads, "inmemory=%d" % inmem]
             yield sx(c), tags
+        # one chromosome, uncompressed: the real trace is determined by the input and compared exactly
+        for i in range(60 if tier == "quick" else 900):
+            txt, tags = bbigen.bw_case(rng, tier, fmode="nice", extra_queries=True, compress=0)
+            c = parse_sx(txt)
+            first = c[3][0][0]
+            inp = [it for it in c[3] if it[0] == first]
+            qs = [q for q in c[4] if len(q) < 2 or q[1] == first or not isinstance(q[1], list)][:40]
+            c = [c[0], c[1], c[2], inp, qs]
+            tags = [t for t in tags if not t.startswith("chroms=")] + ["chroms=1", "one-chromosome"]
+            if i % 6 == 5:
+                c, t = self.malform(rng, c); tags = tags + [t]
+            threads = rng.choice([2, 0, 4]); inmem = rng.choice([0, 1])
+            c.append([threads, inmem, 0])
+            yield sx(c), tags + ["threads=%d" % threads, "inmemory=%d" % inmem]
         for i in range(8 if tier == "quick" else 120):
             c = self.spill_case(rng)
             threads = rng.choice([2, 0, 4, 8]); inmem = rng.choice([0, 1])
@@ -103,6 +117,9 @@ class C14(Prop):
     def nontrivial(self, case, tags):
         return not any(t.startswith("bad-") for t in tags) and case.count("(") > 14
 
+    STATS = {"exact_trace_cases": 0, "sink_operations": 0, "crash_points_replayed": 0, "faults_injected": 0,
+             "torn_header_cuts": 0, "torn_header_cuts_accepted_and_different": 0}
+
     def same(self, case, impl_out, model_out):
         try:
             i = parse_sx(impl_out); m = parse_sx(model_out)
@@ -110,6 +127,11 @@ class C14(Prop):
             return False
         if len(i) != 6 or len(m) != 8:
             return False
+        st = self.STATS
+        st["sink_operations"] += len(i[1]); st["crash_points_replayed"] += len(i[3]); st["faults_injected"] += len(i[5])
+        st["torn_header_cuts"] += i[4][0]; st["torn_header_cuts_accepted_and_different"] += i[4][1]
+        if m[1] and m[2] and m[0] == [0]:
+            st["exact_trace_cases"] += 1
         if i[0] != m[0]:
             return False
         if not m[2]:            # compressed: the model does not predict the bytes
@@ -129,7 +151,7 @@ class C14(Prop):
         """thorough tier: the same cases through a harness built WITHOUT debug assertions (cargo release
         profile): D12 was a difference between the two profiles; after its repair the recorded traces
         must be identical, and the release traces must satisfy the oracle and match the model too"""
-        res = []
+        res = [("stat", k, v) for k, v in self.STATS.items()]
         if ctx["tier"] != "thorough":
             return res
         rc, out = core.sh(["timeout", "1500", "cargo", "build", "--offline", "--release", "--bin", "c14"],
